@@ -278,12 +278,13 @@ class extract_visitor(NodeVisitor):
 
     def visit_ClassDef(self, node):
         # type: (ast.ClassDef) -> None
-        cur = self.flow
-        self.visit_in_flow(node.decorator_list, cur)
-        self.visit_in_flow(list(getattr(node, 'type_params', ())), cur)
-        self.visit_in_flow(node.bases, cur)
+        # decorators, bases and keywords may end in a region of their own
+        # (a comprehension): the class is bound in the region they end in
+        cur = self.visit_in_flow(node.decorator_list, self.flow)
+        cur = self.visit_in_flow(list(getattr(node, 'type_params', ())), cur)
+        cur = self.visit_in_flow(node.bases, cur)
         for kw in getattr(node, 'keywords', []):
-            self.visit_in_flow(kw.value, cur)
+            cur = self.visit_in_flow(kw.value, cur)
         scope = ClassScope(cur.scope, node, top=self.top)
         cur.add_name(scope)  # type: ignore[arg-type]  # TODO
         self.visit_in_flow(node.body, scope.flow)
@@ -300,8 +301,13 @@ class extract_visitor(NodeVisitor):
     def visit_ListComp(self, node):
         # type: (ast.ListComp | ast.GeneratorExp | ast.DictComp | ast.SetComp) -> None
         p = cur = self.flow
-        for g in node.generators:
-            self.visit_in_flow(g.iter, p)
+        for n, g in enumerate(node.generators):
+            # an iterable may bind (a walrus) and may end in a region of its
+            # own (a comprehension inside it): what follows continues there
+            p = self.visit_in_flow(g.iter, p)
+            if not n:
+                # the first iterable is evaluated even when nothing is iterated
+                cur = p
             pp = p
             p = self.make_flow('comp', [p])
             for nn, _idx in get_indexes_for_target(g.target, [], []):
@@ -322,11 +328,11 @@ class extract_visitor(NodeVisitor):
         # the element is evaluated after all the iterables and conditions,
         # although it is written before them: it gets a region of its own
         p = self.make_flow('comp-elt', [p])
-        elt = getattr(node, 'elt', None) or node.value  # type: ast.AST # type: ignore[union-attr]
-        self.visit_in_flow(elt, p)
-
         if hasattr(node, 'key'):
-            self.visit_in_flow(node.key, p)
+            p = self.visit_in_flow(node.key, p)
+
+        elt = getattr(node, 'elt', None) or node.value  # type: ast.AST # type: ignore[union-attr]
+        p = self.visit_in_flow(elt, p)
 
         self.flow = self.make_flow('comp-join', [cur, p])
         self.flow.scope.flow = self.flow
